@@ -38,7 +38,9 @@ class Transformation(ABC):
 
     processing_item: "ProcessingItemBase" | None = field(init=False, compare=False, default=None)
 
-    _pipeline: "ProcessingPipeline" | None = field(init=False, compare=False, default=None)
+    _pipeline: "ProcessingPipeline" | None = field(
+        init=False, compare=False, default=None, repr=False
+    )
 
     @classmethod
     def from_dict(cls, d: dict[str, Any]) -> "Transformation":
